@@ -198,7 +198,7 @@ impl<const N: usize> Corp for heapless::String<N> {
 // ---------- derived types (workspace derive) ----------
 macro_rules! derived_struct {
     ($name:ident $(<$($g:ident),+>)?, $decl:item, [$($ft:ty),*], |$r:ident| $mk:expr) => {
-        #[derive(Serialize, Clone, Debug, postcard_derive_ws::MaxSize)]
+        #[derive(Serialize, Clone, Debug, postcard_derive_ws::MaxSize, postcard_derive_ws::Schema)]
         $decl
         impl$(<$($g: Corp),+>)? Corp for $name$(<$($g),+>)? {
             fn mty() -> String { let mut s = String::from("(struct"); $( s.push(' '); s.push_str(&<$ft as Corp>::mty()); )* s.push(')'); s }
@@ -221,18 +221,18 @@ derived_struct!(Nested, pub struct Nested { pub p: NamedS, pub q: Gen1<u128>, pu
     |r| { let (a, b, c) = (NamedS::cands(r), <Gen1<u128>>::cands(r), <heapless::String<16>>::cands(r));
           (0..4).map(|j| Nested { p: a[j % a.len()].clone(), q: b[j % b.len()].clone(), s: c[j % c.len()].clone() }).collect() });
 
-#[derive(Serialize, Clone, Debug, postcard_derive_ws::MaxSize)]
+#[derive(Serialize, Clone, Debug, postcard_derive_ws::MaxSize, postcard_derive_ws::Schema)]
 pub enum E0 {}
-#[derive(Serialize, Clone, Debug, postcard_derive_ws::MaxSize)]
+#[derive(Serialize, Clone, Debug, postcard_derive_ws::MaxSize, postcard_derive_ws::Schema)]
 pub enum E1 {
     Only(u64),
 }
-#[derive(Serialize, Clone, Debug, postcard_derive_ws::MaxSize)]
+#[derive(Serialize, Clone, Debug, postcard_derive_ws::MaxSize, postcard_derive_ws::Schema)]
 pub enum E2 {
     A,
     B { x: u8, y: i128 },
 }
-#[derive(Serialize, Clone, Debug, postcard_derive_ws::MaxSize)]
+#[derive(Serialize, Clone, Debug, postcard_derive_ws::MaxSize, postcard_derive_ws::Schema)]
 pub enum Mixed<T> {
     U,
     N(T),
